@@ -68,6 +68,7 @@ func runC02(r *Report) {
 	r.Check(ctxOK, "R1", "Reader.Read/wait-watches-context-and-torrent", read.Pos(), "the wait for a piece is abandoned when the context is cancelled or the torrent dies", "the wait for a piece in Reader.Read does not select on both the reader's context and the torrent's Done")
 	// lost wake-up: re-test in requestPiece (C10.R3)
 	c10R3(r.sub("R1"))
+	c10R6(r.sub("R1"))
 	// ---- R2
 	// linear form over the reader's own fields (and len(a)): offsets that cancel are accepted
 	type lin struct {
